@@ -2,7 +2,7 @@
 from ..rules import topology, delivery, flow
 from .common import declare
 
-RULES = ['FANOUT', 'EMIT-SIG', 'PASS-VALUE', 'FIFO-END', 'SWAP-ATOMIC', 'FLUSH-RESETS', 'STATE-PER-INSTANCE', 'FRESH-READ', 'REVERSED-STACK', 'FLAT-RETURN', 'PROPAGATE', 'NONE-SENTINEL', 'ELEMENT-MEMBERSHIP']
+RULES = ['FANOUT', 'EMIT-SIG', 'PASS-VALUE', 'FIFO-END', 'SWAP-ATOMIC', 'FLUSH-RESETS', 'STATE-PER-INSTANCE', 'FRESH-READ', 'REVERSED-STACK', 'FLAT-RETURN', 'PROPAGATE', 'NONE-SENTINEL', 'ELEMENT-MEMBERSHIP', 'EAGER-UPDATE']
 FLOORS = {'FANOUT': 4, 'EMIT-SIG': 30, 'PASS-VALUE': 14, 'FIFO-END': 10, 'SWAP-ATOMIC': 6, 'FLAT-RETURN': 20, 'PROPAGATE': 30}
 CATALOGUE = ('Stream', 'map', 'starmap', 'filter', 'accumulate', 'slice', 'partition', 'partition_unique',
              'sliding_window', 'unique', 'flatten', 'pluck', 'collect', 'union', 'zip', 'combine_latest', 'zip_latest')
@@ -37,6 +37,7 @@ def run(ctx, R):
     R.run(delivery.check_flush_resets, ctx, R, core)
     R.run(delivery.check_fresh_read, ctx, R, core)
     R.run(delivery.check_reversed_stack, ctx, R, core)
+    R.run(delivery.check_eager_update, ctx, R, [c for c in core if c.module.name == 'streamz.core'])
     R.run(delivery.check_element_membership, ctx, R, core)
     R.run(delivery.check_state_per_instance, ctx, R, [c for c in M.nodes if c.module.name in ('streamz.core', 'streamz.sinks', 'streamz.sources', 'streamz.dask')])
     R.run(flow.check_flat_return, ctx, R, core)
